@@ -28,6 +28,7 @@ extern "C" int LLVMFuzzerTestOneInput(const uint8_t* data, size_t size) {
         fz::rejected(); fz::cls("rejected: FEN");
         return 0;
     }
+    if (fz::excludeClocks() && !fz::clocksSane(pos.getHalfMoveClock(), pos.getFullMoveCounter())) { fz::rejected(); fz::cls("excluded: absurd move counters (switch)"); return 0; }
     ref::Pos r;
     std::string f1 = TextIO::toFEN(pos);
     if (!ref::fromFEN(f1, r)) fz::oracleFail("toFEN output is not a FEN: " + f1, data, size);
